@@ -231,7 +231,7 @@ Alts(s) ==
                      <<"M", "Q">>, <<"D", "B">> } }
     [] s = "d.name" ->
          { [lab |-> x \o " named '" \o nm \o "'", x |-> x, as |-> nm] :
-             x \in {"A", "I", "U", "E", "In", "Cu", "Q", "C"}, nm \in BadNames }
+             x \in {"A", "I", "U", "E", "In", "Cu", "Q", "C", "S", "M"}, nm \in BadNames }   \* S, M: the other two roots
     [] s = "d.member" ->
          { [lab |-> k \o " named '" \o nm \o "'", k |-> k, nm |-> nm] :
              k \in {"field", "ifield", "arg", "value", "input"}, nm \in BadNames }
